@@ -2,7 +2,8 @@
 # runs every claimed check (quick by default) on /repo and validates every evidence file
 tier=${1:-quick}
 cd /verif
-for p in $(python3 -c "import json;print(' '.join(c['property_id'] for c in json.load(open('MANIFEST.json'))['checks']))"); do
+props=${2:-$(python3 -c "import json;print(' '.join(c['property_id'] for c in json.load(open('MANIFEST.json'))['checks']))")}
+for p in $props; do
   s=$(date +%s)
   out=$(./bin/ssa2smt check --property $p --tier $tier 2>&1); rc=$?
   e=$(date +%s)
